@@ -37,6 +37,7 @@ from io import StringIO
 from pathlib import Path
 from sys import platform
 from typing import IO, Match, Optional, Pattern, Tuple, Type, Union
+from xml.sax.saxutils import escape, unescape
 
 import libsbml
 
@@ -92,6 +93,8 @@ SBML_DOT = "__SBML_DOT__"
 # -----------------------------------------------------------------------------
 # Precompiled note pattern
 # -----------------------------------------------------------------------------
+# libsbml writes quotes in text nodes as entities
+XML_QUOTES = {"&apos;": "'", "&quot;": '"'}
 pattern_notes: Pattern = re.compile(
     r"<(?P<prefix>(\w+:)?)p[^>]*>(?P<content>.*?)</(?P=prefix)p>",
     re.IGNORECASE | re.DOTALL,
@@ -1678,7 +1681,9 @@ def _parse_notes_dict(sbase) -> dict:
             except ValueError:
                 LOGGER.debug(f"Unexpected content format '{_content}'.")
                 continue
-            notes_store[key.strip()] = value.strip()
+            notes_store[unescape(key.strip(), XML_QUOTES)] = unescape(
+                value.strip(), XML_QUOTES
+            )
         return {k: v for k, v in notes_store.items() if len(v) > 0}
     else:
         return {}
@@ -1697,7 +1702,10 @@ def _sbase_notes_dict(sbase: libsbml.SBase, notes: dict) -> None:
     if notes and len(notes) > 0:
         tokens = (
             ['<html xmlns = "http://www.w3.org/1999/xhtml" >']
-            + [f"<p>{k}: {v}</p>" for (k, v) in notes.items()]
+            + [
+                f"<p>{escape(str(k))}: {escape(str(v))}</p>"
+                for (k, v) in notes.items()
+            ]
             + ["</html>"]
         )
         _check(
